@@ -252,6 +252,15 @@ incremental = false
 """
 
 
+_uniq = [0]
+
+
+def unique_bin(prefix):
+    """bin names are global inside the shared cargo target dir: make them unique per process and call"""
+    _uniq[0] += 1
+    return "%s_%d_%d" % (prefix, os.getpid(), _uniq[0])
+
+
 def write_batch_crate(crate_dir, batches, forbid_unsafe=True, macro_dep=False):
     """batches: list of (bin_name, [GrammarUnit]); GrammarUnit has .gidx (global), .code_path, .exports
     (list of (rule, has_position)), .ctx (bool), .extra_rust (assertion module text or '')"""
@@ -408,13 +417,16 @@ def parse_log(log_path):
                 cur["steps"] = int(f_[1])
             elif t == "C":
                 cur["calls"].append(("C", f_[1], unhex(f_[2]), f_[3], f_[4] == "1"))
+                cur["events"].append(("U", "C", f_[1]))
             elif t == "K":
                 cur["calls"].append(("K", f_[1], int(f_[2]), f_[3] == "1"))
+                cur["events"].append(("U", "K", f_[1]))
             elif t == "X":
                 if f_[4] == "ok":
                     cur["calls"].append(("X", f_[1], int(f_[2]), f_[3], ("ok", int(f_[5]), unhex(f_[6]))))
                 else:
                     cur["calls"].append(("X", f_[1], int(f_[2]), f_[3], ("err", unhex(f_[5]))))
+                cur["events"].append(("U", "X", f_[1]))
             elif t == "P":
                 cur["calls"].append(("P", int(f_[1]), int(f_[2])))
                 cur["events"].append(("P", int(f_[1]), int(f_[2])))
